@@ -117,7 +117,7 @@ int hmac(const DIGEST *digest, const uint8_t *key, size_t keylen,
 	HMAC_CTX ctx;
 
 	if (hmac_init(&ctx, digest, key, keylen) != 1
-		|| hmac_update(&ctx, data, datalen) != 1
+		|| hmac_update(&ctx, data, datalen) < 0
 		|| hmac_finish(&ctx, mac, maclen) != 1) {
 		goto end;
 	}
